@@ -4,7 +4,10 @@ package main
 
 import (
 	"fmt"
+	"math/bits"
 	"strings"
+
+	"golang.org/x/crypto/sha3"
 
 	"github.com/bytom/bytom/protocol/bc"
 	"github.com/bytom/bytom/protocol/bc/types"
@@ -404,7 +407,140 @@ func c03OracleMerkle(c *Ctx, g *codecGen) {
 	}
 }
 
+// ---------------------------------------------------------------------------------------
+// large merkle trees: `mroot <n> <seed>` => root of the n synthetic leaves (ids only), computed
+// by the real TxMerkleRoot; the model computes the same root with its own recursion + SHA3.
+
+func c03Leaf(seed uint64, i int) bc.Hash {
+	return bc.Hash{V0: seed, V1: uint64(i), V2: 0, V3: 0xC03}
+}
+
+func c03Leaves(seed uint64, n int) []bc.Hash {
+	ids := make([]bc.Hash, n)
+	for i := range ids {
+		ids[i] = c03Leaf(seed, i)
+	}
+	return ids
+}
+
+func c03Root(ids []bc.Hash) bc.Hash {
+	txs := make([]*bc.Tx, len(ids))
+	for i := range ids {
+		txs[i] = &bc.Tx{ID: ids[i]}
+	}
+	r, err := types.TxMerkleRoot(txs)
+	if err != nil {
+		panic(err)
+	}
+	return r
+}
+
+// refRoot: an independent, straightforward recursive RFC-6962 style root (split at the largest
+// power of two strictly below n), written against the documentation, not the code.
+func refRoot(ids []bc.Hash) [32]byte {
+	switch n := len(ids); {
+	case n == 0:
+		return sha3.Sum256(nil)
+	case n == 1:
+		return sha3.Sum256(append([]byte{0x00}, ids[0].Bytes()...))
+	default:
+		k := 1 << uint(bits.Len(uint(n-1))-1)
+		l, r := refRoot(ids[:k]), refRoot(ids[k:])
+		return sha3.Sum256(append(append([]byte{0x01}, l[:]...), r[:]...))
+	}
+}
+
+var c03MerkleFails int
+
+func c03MerkleFail(c *Ctx, sig, detail string) {
+	c.Count("oraclefail:merkle")
+	if c03MerkleFails < 8 {
+		c03MerkleFails++
+		c.Fail(sig, detail)
+	}
+}
+
+func c03MerkleCase(c *Ctx, n int, seed uint64) {
+	ids := c03Leaves(seed, n)
+	root := c03Root(ids)
+	c.Op(fmt.Sprintf("mroot %d %d", n, seed), hxHash(root))
+	c.Count("merkle:sizes")
+	if ref := refRoot(ids); bc.NewHash(ref) != root {
+		c03MerkleFail(c, fmt.Sprintf("txmerkleroot-differs-from-reference:n=%d", n), fmt.Sprintf("TxMerkleRoot of %d leaves (seed %d) = %s, straightforward recursion = %x", n, seed, hxHash(root), ref))
+	}
+	if n == 0 {
+		return
+	}
+	// the tree the inclusion proofs are cut from (buildMerkleTree) must have the same root
+	txs := make([]*types.Tx, n)
+	for i := range ids {
+		txs[i] = &types.Tx{Tx: &bc.Tx{ID: ids[i]}}
+	}
+	if hs, _ := types.GetTxMerkleTreeProof(txs, nil); len(hs) != 1 || *hs[0] != root {
+		c03MerkleFail(c, fmt.Sprintf("txmerkleroot-differs-from-buildMerkleTree:n=%d", n), fmt.Sprintf("%d leaves (seed %d)", n, seed))
+	}
+	positions := []int{n - 1, 0, c.Rng.Intn(n), n - 1 - c.Rng.Intn(minInt(n, 300)), n - 1 - c.Rng.Intn(minInt(n, 40))}
+	// completeness of an inclusion proof for a leaf (tail biased) against TxMerkleRoot
+	p := positions[3]
+	hs, fl := types.GetTxMerkleTreeProof(txs, []*types.Tx{txs[p]})
+	if !types.ValidateTxMerkleTreeProof(hs, fl, []*bc.Hash{&ids[p]}, root) {
+		c03MerkleFail(c, fmt.Sprintf("merkle-proof-of-included-leaf-rejected:n=%d:pos=%d", n, p), fmt.Sprintf("%d leaves (seed %d), proof for leaf %d does not validate against TxMerkleRoot", n, seed, p))
+	}
+	// the property: changing, removing or appending ONE leaf changes the root
+	for _, p := range positions {
+		c.Count("mut:merkle.leaf")
+		mod := append([]bc.Hash{}, ids...)
+		mod[p].V2 ^= 1
+		if c03Root(mod) == root {
+			c03MerkleFail(c, fmt.Sprintf("merkle-root-ignores-changed-leaf:n=%d:pos=%d", n, p), fmt.Sprintf("%d leaves (seed %d): replacing leaf %d keeps TxMerkleRoot %s", n, seed, p, hxHash(root)))
+		}
+		if n > 1 {
+			rem := append(append([]bc.Hash{}, ids[:p]...), ids[p+1:]...)
+			if c03Root(rem) == root {
+				c03MerkleFail(c, fmt.Sprintf("merkle-root-ignores-removed-leaf:n=%d:pos=%d", n, p), fmt.Sprintf("%d leaves (seed %d): removing leaf %d keeps TxMerkleRoot %s", n, seed, p, hxHash(root)))
+			}
+		}
+	}
+	app := append(append([]bc.Hash{}, ids...), c03Leaf(seed+1, n))
+	if c03Root(app) == root {
+		c03MerkleFail(c, fmt.Sprintf("merkle-root-ignores-appended-leaf:n=%d", n), fmt.Sprintf("%d leaves (seed %d): appending a leaf keeps TxMerkleRoot %s", n, seed, hxHash(root)))
+	}
+}
+
+func minInt(a, b int) int {
+	if a < b {
+		return a
+	}
+	return b
+}
+
+// leaf counts around every power of two and every 256-leaf boundary up to a few thousand
+var c03MerkleSizes = []int{0, 1, 2, 3, 5, 8, 255, 256, 257, 511, 513, 1023, 1024, 1025, 1279, 1280, 1281, 1300, 1535, 1537, 2047, 2048, 2049, 2303, 4097}
+
+func c03MerkleLine(c *Ctx, line string) bool {
+	f := strings.Fields(line)
+	if len(f) != 3 || f[0] != "mroot" {
+		return false
+	}
+	var n int
+	var seed uint64
+	if _, err := fmt.Sscan(f[1], &n); err != nil || n < 0 || n > 1<<16 {
+		return false
+	}
+	if _, err := fmt.Sscan(f[2], &seed); err != nil {
+		return false
+	}
+	c03MerkleCase(c, n, seed)
+	return true
+}
+
 func c03Line(c *Ctx, line string) {
+	if strings.HasPrefix(line, "mroot ") {
+		if !c03MerkleLine(c, line) {
+			c.Op(line, "bad-op")
+		}
+		return
+	}
 	kind, text, ok := parseOpLine(line)
 	if !ok {
 		c.Op(line, "bad-op")
@@ -438,6 +574,19 @@ func runC03(c *Ctx) {
 	}
 	for _, l := range c.CorpusLines() {
 		c03Line(c, l)
+	}
+	// large trees first: fixed boundary sizes in every tier, random sizes in addition in the thorough tier
+	for _, n := range c03MerkleSizes {
+		c03MerkleCase(c, n, uint64(c.Seed))
+	}
+	if c.Tier == "thorough" {
+		for i := 0; i < 40; i++ {
+			n := 900 + c.Rng.Intn(4300)
+			if i%4 == 0 {
+				n = 256*(4+c.Rng.Intn(14)) + []int{-1, 0, 1, 2, 255}[c.Rng.Intn(5)]
+			}
+			c03MerkleCase(c, n, uint64(c.Seed)+uint64(i)+1)
+		}
 	}
 	g := &codecGen{r: c.Rng, count: c.Count}
 	for i := 0; i < c.N; i++ {
